@@ -73,7 +73,13 @@ def run(ctx):
             gd = P.gen_invertible_graph(rng, 200)
             if (gd["kind"] == "matrix") == want_matrix and (not want_matrix or (gd["modulo"] != 0 and gd["modulo"] <= 120)):
                 break
-        encoded = gd["kind"] == "perm" and gi % 2 == 0
+        if gi % 3 == 1:
+            # states whose code needs more than 32 (and often more than 64) bits: a conversion done in the caller's own narrow dtype loses the high part
+            for _ in range(200):
+                gd = G.gen_perm_graph(rng, 200, multiword=True)
+                if len(gd["central"]) * max(1, max(gd["central"]).bit_length()) > 32:
+                    break
+        encoded = gd["kind"] == "perm" and (gi % 2 == 0 or gi % 3 == 1)
         cfgd = {"bit_encoding_width": "auto" if encoded else None, "random_seed": 5, "batch_size": rng.choice([2, 2**20])}
         layers, dist = G.ref_bfs(gd, [gd["central"]])
         verts = sorted(dist)
